@@ -26,7 +26,108 @@ def build_cases(rng, tier):
     return cases
 
 
+# ------------------------------------------------------------------ the buffer stack as an array (coq/StackGrow.v)
+STACK_MAIN = r"""
+int main(int argc, char **argv)
+{
+    const char *p; int n = 0;
+    %(DECL)s
+    %(INIT)s
+    for (p = argv[1]; *p; p++) {
+        if (*p == 'P') { yypush_buffer_state(yy_create_buffer(stdin, 16 %(S)s) %(S)s); n++; }
+        else yypop_buffer_state(%(S1)s);
+        printf("K %%d %%d\n", (int) %(TOP)s, (int) %(MAX)s);
+    }
+    %(FINI)s
+    return 0;
+}
+"""
+
+
+def stack_cases(rng, tier):
+    cases = []
+    n = 6 if tier == "quick" else 40
+    for i in range(n):
+        r = rng.fork("stk%d" % i)
+        hs = ["P" * 20 + "O" * 21, "P" * 9 + "O" * 3 + "P" * 12 + "O" * 20]
+        for _ in range(3):
+            h, depth = "", 0
+            for _ in range(r.rng(10, 60)):
+                if depth == 0 or r.chance(62):
+                    h += "P"
+                    depth += 1
+                else:
+                    h += "O"
+                    depth -= 1
+            hs.append(h)
+        cases.append({'id': "k%d" % i, 'kind': 'stackgrid', 'backend': ['nr', 'r'][i % 2], 'histories': hs, 'seed': r.s,
+                      'flex_opts': list(r.pick([[], ["-Cf"], ["-Ce"]])) + ["-8"], 'text': '', 'prog': None})
+    return cases
+
+
+def stack_worker(case):
+    import os
+    import scanner
+    import backends
+    from common import run, Rng
+    wd = os.path.join(engine._ROOT, "c%s" % case['id'])
+    os.makedirs(wd, exist_ok=True)
+    res = {'problems': [], 'lockstep': [], 'streams': [], 'id': case['id'], 'stack_ops': 0}
+    be = case['backend']
+    try:
+        prog = {'csize': 256, 'caseins': False, 'scs': [], 'rules': [{'head': ('c', 120), 'bol': False, 'scs': None, 'trail': None}]}
+        sub = {'nr': dict(DECL="", INIT="", S="", S1="", TOP="yy_buffer_stack_top", MAX="yy_buffer_stack_max", FINI="yylex_destroy();"),
+               'r': dict(DECL="yyscan_t s;", INIT="if (yylex_init(&s)) return 3;", S=", s", S1="s",
+                         TOP="((struct yyguts_t *) s)->yy_buffer_stack_top", MAX="((struct yyguts_t *) s)->yy_buffer_stack_max",
+                         FINI="yylex_destroy(s);")}[be]
+        text = scanner.make_spec(prog, Rng(case['seed']).fork("print"), epilogue=backends.EMIT + STACK_MAIN % sub, backend=be)
+        res['text'] = text
+        with open(os.path.join(wd, "s.l"), "w") as f:
+            f.write(text)
+        rc, out, err = scanner.run_flex(engine._FLEX, "s.l", "s.c", case['flex_opts'], wd)
+        if rc != 0:
+            res['problems'].append(('flex-error', err.decode(errors='replace')[:300]))
+            return res
+        rc, out, err = scanner.compile_c("s.c", "s.exe", wd, backend=be)
+        if rc != 0:
+            res['problems'].append(('compile-error', err.decode(errors='replace')[:400]))
+            return res
+        queries, reals = [], []
+        for h in case['histories']:
+            rc, out, err = run([os.path.join(wd, "s.exe"), h], timeout=20)
+            if rc != 0:
+                res['problems'].append(('scanner-abnormal', "history %s rc=%s %s" % (h, rc, err[:160])))
+                continue
+            reals.append((h, [tuple(int(x) for x in l.split()[1:3]) for l in out.decode().splitlines() if l.startswith("K ")]))
+            ops, nid = [], 0
+            for ch in h:
+                if ch == 'P':
+                    nid += 1
+                    ops.append(str(nid))
+                else:
+                    ops.append("0")
+            queries.append("(stacktrace (%s))" % " ".join(ops))
+        rc, out, err = scanner.run_driver("(case %s\n(queries (%s)))\n" % (scanner.sx_program(prog), "\n".join(queries)), wd, timeout=60)
+        if rc != 0:
+            res['problems'].append(('driver-error', "rc=%s %s" % (rc, err[:300])))
+            return res
+        lines = [l for l in out.splitlines() if l.startswith("stacktrace")]
+        for (h, real), line in zip(reals, lines):
+            model = [tuple(int(x) for x in t.split(":")) for t in line.split()[1:]]
+            res['stack_ops'] += len(real)
+            if real != model:
+                k = next((i for i in range(min(len(real), len(model))) if real[i] != model[i]), min(len(real), len(model)))
+                res['problems'].append(('buffer-stack-bookkeeping', "history %s: after operation %d the scanner has (top, capacity) = %s, the model "
+                                        "(coq/StackGrow.v) %s" % (h, k + 1, real[k] if k < len(real) else None, model[k] if k < len(model) else None)))
+    except Exception as ex:
+        import traceback
+        res['problems'].append(('harness-error', repr(ex) + traceback.format_exc()[-300:]))
+    return res
+
+
 def worker(case):
+    if case.get('kind') == 'stackgrid':
+        return stack_worker(case)
     wd = os.path.join(engine._ROOT, "c%s" % case['id'])
     try:
         res = bufprog.eval_buf_case(engine._FLEX, wd, case)
@@ -66,12 +167,46 @@ def scan_buffer_probe(ck, flex, scratch, cases, results, stats):
     return {"scan_buffer_unterminated_probes": n, "scan_buffer_unterminated_accepted": bad}
 
 
+def judge(ck, flex, scratch, cases, results, stats):
+    sc = [(c, r) for c, r in zip(cases, results) if c.get('kind') != 'stackgrid']
+    engine.judge_stream(ck, flex, scratch, [c for c, _ in sc], [r for _, r in sc], stats)
+    stats['buffer_stack_operations_compared'] = sum(r.get('stack_ops', 0) for r in results)
+    for c, r in zip(cases, results):
+        if c.get('kind') != 'stackgrid':
+            continue
+        c['text'] = r.get('text', '')
+        for kind, msg in r['problems']:
+            stats.setdefault('problem_kinds', {})
+            stats['problem_kinds'][kind] = stats['problem_kinds'].get(kind, 0) + 1
+        if not r['problems']:
+            continue
+        kind, msg = r['problems'][0]
+        ck.violation("%s:%s" % (kind, c['backend']), msg[:600],
+                     {'spec': c['text'], 'flex_opts': c['flex_opts'], 'backend': c['backend'], 'detail': [list(p) for p in r['problems'][:3]],
+                      'correspondence': 'coq/StackGrow.v (trace, extracted) vs yy_buffer_stack_top / yy_buffer_stack_max of the compiled scanner',
+                      'how': "flex -o s.c s.l; cc; ./s PPPOP...: P = yypush_buffer_state(yy_create_buffer(stdin, 16)), O = yypop_buffer_state(); "
+                             "after every operation the driver prints K <top> <max>"},
+                     no_input=kind in ('harness-error', 'driver-error'))
+
+
+def build_all(rng, tier):
+    return build_cases(rng, tier) + stack_cases(rng.fork("stackgrid"), tier)
+
+
+def post_all(ck, flex, scratch, cases, results, stats):
+    d = scan_buffer_probe(ck, flex, scratch, [c for c in cases if c.get('kind') != 'stackgrid'], results, stats) or {}
+    d['buffer_stack_operations_compared'] = stats.get('buffer_stack_operations_compared', 0)
+    return d
+
+
 def main(tier):
     engine._orig_judge11 = engine.judge
-    engine.judge = engine.judge_stream
+    engine.judge = judge
     try:
         return engine.standard_main(
-            PROP, tier, "Properties_C11.v", build_cases,
+            PROP, tier, "Properties_C11.v", build_all,
+            "the buffer stack as an array: (top, capacity) after every push / pop of generated histories compared with coq/StackGrow.v "
+            "(C11_stack_index_inside_the_array, C11_push_is_cons, C11_pop_returns_to_the_buffer_below); "
             "histories (10..60 operations quick, ..400 thorough; 3 per program) over yy_create_buffer (buffer sizes 1..16384) / "
             "yy_scan_string / yy_scan_bytes / yy_scan_buffer / switch / push (to depth > 9, beyond the initial stack allocation) / pop / "
             "flush / delete (incl. the current buffer) / yylex(k) on non-reentrant, reentrant (with per-buffer yylineno) and c99 "
@@ -81,7 +216,7 @@ def main(tier):
              "two or more buffers stacked)",
              "buffer operations happen between yylex calls and, for yypop_buffer_state, inside yywrap() (include-style scanners); pushes from inside actions are not generated",
              "the C++ class has a different buffer API (streams) and is not driven here"],
-            worker=worker, post=scan_buffer_probe)
+            worker=worker, post=post_all)
     finally:
         engine.judge = engine._orig_judge11
 
